@@ -186,6 +186,49 @@ def real_failures(chk, rounds):
         chk.count("real", how)
 
 
+def same_relative_name_in_two_packages(chk):
+    """Two packages use the SAME relative dependency string (":setup") for their own, different task.  Real runs:
+    //a:setup fails, //b:setup succeeds -> //a:run must be skipped (its dependency failed), //b:run must run after
+    //b:setup; and with both succeeding, each run must start only after the setup of ITS package has finished.  (The
+    scheduling engine names tasks uniquely across packages, so a resolution that is keyed by the bare string went unseen.)"""
+    import os
+    import implrun
+    from implrun import strip_ansi
+
+    for fail_a in (True, False):
+        root = implrun.make_project({"COND": 'group(name="all", deps=["//a:run", "//b:run"])\n'})
+        log = os.path.join(root, "events.log")
+        for pkg, delay, rc in (("a", "0.6", 3 if fail_a else 0), ("b", "0.1", 0)):
+            os.makedirs(os.path.join(root, pkg))
+            open(os.path.join(root, pkg, "COND"), "w").write(
+                'run_command(name="setup", run="echo S %s-setup >> %s; sleep %s; echo E %s-setup >> %s; exit %d", parallelizable=True)\n' % (pkg, log, delay, pkg, log, rc)
+                + 'run_command(name="run", run="echo S %s-run >> %s; echo out > $COND_OUT/r", deps=[":setup"], parallelizable=True)\n' % (pkg, log))
+        res = implrun.run_cond(["run", "//:all", "-j", "3"], root, timeout=60)
+        chk.coverage["evaluations"] += 1
+        chk.count("real", "same-relative-name")
+        ev = open(log).read().split("\n") if os.path.exists(log) else []
+        text = strip_ansi(res.out + res.err)
+        problems = []
+        for pkg in ("a", "b"):
+            failed = pkg == "a" and fail_a
+            s_run = ("S %s-run" % pkg) in ev
+            if failed and s_run:
+                problems.append("//%s:run was started although its dependency //%s:setup exited 3" % (pkg, pkg))
+            if not failed:
+                if not s_run:
+                    problems.append("//%s:run was not executed although //%s:setup succeeded" % (pkg, pkg))
+                elif ("E %s-setup" % pkg) not in ev or ev.index("S %s-run" % pkg) < ev.index("E %s-setup" % pkg):
+                    problems.append("//%s:run started before //%s:setup had finished (events %r)" % (pkg, pkg, [e for e in ev if e]))
+        if res.code != (1 if fail_a else 0):
+            problems.append("cond run exited %s: %r" % (res.code, text[-200:]))
+        for msg in problems:
+            chk.violation("impl-violation", "two packages with a task `setup` and a dependent `run` (deps=[\":setup\"]), //a:setup %s: %s" % ("fails" if fail_a else "succeeds", msg),
+                          {"input": {"scenario": "same-relative-name", "a_setup_fails": fail_a}, "impl_observation": {"events": ev, "exit": res.code, "output": text[-600:]}, "oracle_verdict": msg},
+                          match_key={"real": "same-relative-name"}, size=5)
+        if not problems:
+            chk.coverage["traces_validated_against_impl"] += 1
+
+
 def real_slots(chk, rounds):
     """real `cond run` processes over a project that declares its tasks in every available form (run_command,
     run_experiment, the instances of run_experiment_group), with mixed `parallelizable` flags: each task logs its start
@@ -306,6 +349,8 @@ def run_prop(prop, tier, seed, replay=None, extra_oracles=(), extra_part=None, e
                               match_key={"real": "unrelated-child"}, size=2)
             else:
                 chk.coverage["traces_validated_against_impl"] += 1
+    if prop in ("C01", "C03", "C14", "C02"):
+        same_relative_name_in_two_packages(chk)
     if prop == "C04":
         real_slots(chk, 4 if tier == "quick" else 24)
         from reaper_util import stopped_task
